@@ -350,10 +350,49 @@ impl Builder {
         }
     }
 
+    /// Text made of the protocol's own vocabulary: a token or PASERK header of some version (key ids and
+    /// wrapped keys are what footers carry in practice), followed by 0..70 base64url characters -- none,
+    /// fewer than, exactly or more than a key of that type has -- inside a bare string, a JSON member or
+    /// a sentence.
+    pub fn vocabulary_text(&mut self) -> String {
+        const TYPES: [&str; 13] = ["local", "public", "secret", "local-pw", "secret-pw", "local-wrap.pie", "secret-wrap.pie", "seal", "lid", "sid", "pid", "local-wrap", "wrap.pie"];
+        let lead = if self.rng.chance(1, 4) { "v" } else { "k" };
+        let ver = self.rng.below(6);
+        let ty = TYPES[self.rng.usize_below(if lead == "v" { 2 } else { TYPES.len() })];
+        let n = match self.rng.below(10) {
+            0 | 1 => 0,
+            2 => 1,
+            3 => 42,
+            4 => 43,
+            5 => 44,
+            6 => 32,
+            _ => self.rng.usize_below(70),
+        };
+        const B64: &[u8] = b"ABCDEFGHIJKLMNOPQRSTUVWXYZabcdefghijklmnopqrstuvwxyz0123456789-_";
+        let tail: String = (0..n).map(|_| B64[self.rng.usize_below(64)] as char).collect();
+        let dot = if self.rng.chance(1, 8) { "" } else { "." };
+        let core = format!("{lead}{ver}.{ty}{dot}{tail}");
+        match self.rng.below(6) {
+            0 => core,
+            1 => format!("{{\"kid\":\"{core}\"}}"),
+            2 => format!("{{\"wpk\":\"{core}\",\"kid\":\"x\"}}"),
+            3 => format!("see the {core} type"),
+            4 => format!("{core}{core}"),
+            _ => format!("{{\"kid\":\"{core}"),
+        }
+    }
+
     pub fn footer(&mut self) -> FootSpec {
         match self.rng.below(10) {
             0..=3 => FootSpec::Unit,
-            4..=6 => FootSpec::Bytes { bytes: self.small_bytes(80) },
+            4 => {
+                if self.rng.bool() {
+                    FootSpec::Bytes { bytes: Bytes::hex(self.vocabulary_text().as_bytes()) }
+                } else {
+                    FootSpec::Bytes { bytes: self.small_bytes(80) }
+                }
+            }
+            5 | 6 => FootSpec::Bytes { bytes: self.small_bytes(80) },
             7 => FootSpec::Raw { bytes: self.small_bytes(80) },
             8 => FootSpec::Json { value: self.json_object() },
             _ => {
